@@ -245,6 +245,8 @@ class FolderObservation(AbstractObservation, discriminator="folder"):
                 health_status = self.cached_obs["health_status"]
             else:
                 health_status = folder_state["visible_status"]
+                # remember what the scan published: it stays the observed value until the next scan completes
+                self.cached_obs = {**self.cached_obs, "health_status": health_status}
         else:
             health_status = folder_state["health_status"]
 
